@@ -465,6 +465,9 @@ func c37Drive(reader string, data []byte, seed uint64, plain bool, faultAt int) 
 	for waited := 0; ; waited += 8 {
 		select {
 		case o := <-ch:
+			if o.allocMiB >= 64 {
+				debug.FreeOSMemory() // a reader may have allocated gigabytes for a length field; give it back now
+			}
 			return o
 		case <-time.After(8 * time.Second):
 		}
@@ -509,8 +512,7 @@ func c37DriveInner(reader string, data []byte, seed uint64, plain bool, faultAt 
 			o.detail = fmt.Sprintf("the reader called Read %d times on a %d-byte stream (allowed: len+16)", sim.calls, len(data))
 		}
 		if d := c37Allocs() - a0; d > 4<<20 {
-			o.allocMiB = int64(d >> 20)
-			debug.FreeOSMemory() // a reader may have allocated gigabytes for a length field; give it back now
+			o.allocMiB = int64(d >> 20) // (the memory is given back by c37Drive, outside the watchdog's clock)
 		}
 	}()
 	endWith := func(err error) {
@@ -992,7 +994,7 @@ func c37InAllocator() bool {
 	buf := make([]byte, 1<<20)
 	n := runtime.Stack(buf, true)
 	for _, g := range strings.Split(string(buf[:n]), "\n\n") {
-		if strings.Contains(g, "c37DriveInner") && (strings.Contains(g, "runtime.mallocgc") || strings.Contains(g, "runtime.memclrNoHeapPointers") || strings.Contains(g, "runtime.(*mheap).alloc") || strings.Contains(g, "runtime.makeslice")) {
+		if strings.Contains(g, "c37DriveInner") && (strings.Contains(g, "runtime.mallocgc") || strings.Contains(g, "runtime.memclrNoHeapPointers") || strings.Contains(g, "runtime.(*mheap).alloc") || strings.Contains(g, "runtime.makeslice") || strings.Contains(g, "runtime.gcStart") || strings.Contains(g, "runtime.gcAssistAlloc")) {
 			return true
 		}
 	}
